@@ -147,8 +147,8 @@ func (w *MarkdownWriter) writeHeading(para *document.Paragraph, style string) er
 		level = 6
 	}
 
-	text := w.extractParagraphText(para)
-	if strings.TrimSpace(text) == "" {
+	text := strings.TrimSpace(w.extractParagraphText(para))
+	if text == "" {
 		return nil
 	}
 
@@ -223,8 +223,8 @@ func (w *MarkdownWriter) writeListItem(para *document.Paragraph) error {
 // writeNormalParagraph 写入普通段落
 func (w *MarkdownWriter) writeNormalParagraph(para *document.Paragraph) error {
 	w.closeList()
-	text := w.extractParagraphText(para)
-	if strings.TrimSpace(text) == "" {
+	text := strings.TrimSpace(w.extractParagraphText(para))
+	if text == "" {
 		w.output.WriteString("\n")
 		return nil
 	}
@@ -343,6 +343,15 @@ func (w *MarkdownWriter) formatRunText(run *document.Run) string {
 		return ""
 	}
 
+	// 首尾空白放在强调标记之外（"** x **" 不会被解析为强调）
+	core := strings.TrimSpace(text)
+	if core == "" {
+		return text
+	}
+	lead := text[:strings.Index(text, core)]
+	trail := text[len(lead)+len(core):]
+	text = core
+
 	// 检查格式属性
 	if run.Properties != nil {
 		// 处理代码样式（反引号必须在最内层，否则强调标记会成为代码文本）
@@ -367,7 +376,7 @@ func (w *MarkdownWriter) formatRunText(run *document.Run) string {
 		}
 	}
 
-	return text
+	return lead + text + trail
 }
 
 // extractCellText 提取单元格文本
